@@ -268,13 +268,30 @@ func runC19(r *Run) {
 		// configured methods/headers
 		for _, hdr := range []string{"Access-Control-Allow-Methods", "Access-Control-Allow-Headers"} {
 			found := false
-			for b := range blocksReachable(start.Block, nil, nil) {
-				for _, in := range b.Instrs {
-					if ci, ok := in.(ssa.CallInstruction); ok && strings.HasSuffix(calleeName(ci.Common()), ".Ctx).Set") {
-						if s, ok := constString(asConst(ci.Common().Args[0])); ok && s == hdr {
-							found = true
+			var scan func(in ssa.Instruction, depth int)
+			scan = func(in ssa.Instruction, depth int) {
+				ci, ok := in.(ssa.CallInstruction)
+				if !ok {
+					return
+				}
+				if strings.HasSuffix(calleeName(ci.Common()), ".Ctx).Set") {
+					if s, ok := constString(asConst(ci.Common().Args[0])); ok && s == hdr {
+						found = true
+					}
+					return
+				}
+				// a helper of the package called from the preflight region (`setPreflightHeaders(c, cfg)`)
+				if g := ci.Common().StaticCallee(); g != nil && depth < 2 && isTransparent(g, pkgOfFn(h)) {
+					for _, gb := range g.Blocks {
+						for _, gi := range gb.Instrs {
+							scan(gi, depth+1)
 						}
 					}
+				}
+			}
+			for b := range blocksReachable(start.Block, nil, nil) {
+				for _, in := range b.Instrs {
+					scan(in, 0)
 				}
 			}
 			r.check(found, "handler:preflight-sets-"+hdr, r.pos(pre.If), hdr+" is set in the preflight region", hdr+" is never set for preflight requests")
@@ -420,7 +437,50 @@ func runC19(r *Run) {
 			is   func(v ssa.Value) bool
 		}
 		callOn := func(fn, field string) func(v ssa.Value) bool {
+			onField := func(x ssa.Value) bool {
+				return dependsOn(x, func(y ssa.Value) bool {
+					fv := fieldOfValue(y)
+					return fv != nil && fv.Name() == field
+				}) != nil
+			}
+			// the same test written as a comparison of a slice of the origin: `o[:len(prefix)] == prefix`,
+			// `o[len(o)-len(suffix):] == suffix` (what bounds the slice is C07's question, not this rule's)
+			sliced := func(v ssa.Value) bool {
+				bo, ok := v.(*ssa.BinOp)
+				if !ok || bo.Op != token.EQL {
+					return false
+				}
+				for _, pair := range [][2]ssa.Value{{bo.X, bo.Y}, {bo.Y, bo.X}} {
+					sl, ok := stripValue(pair[0]).(*ssa.Slice)
+					if !ok || !onField(pair[1]) {
+						continue
+					}
+					if _, isParam := stripValue(sl.X).(*ssa.Parameter); !isParam {
+						continue
+					}
+					lenOfPart := func(x ssa.Value) bool {
+						c, ok := x.(*ssa.Call)
+						if !ok || len(c.Call.Args) != 1 {
+							return false
+						}
+						bi, ok := c.Call.Value.(*ssa.Builtin)
+						return ok && bi.Name() == "len" && onField(c.Call.Args[0])
+					}
+					if fn == "strings.HasPrefix" && sl.Low == nil && sl.High != nil && lenOfPart(sl.High) {
+						return true
+					}
+					if fn == "strings.HasSuffix" && sl.High == nil && sl.Low != nil {
+						if sub, ok := sl.Low.(*ssa.BinOp); ok && sub.Op == token.SUB && isLenOf(sub.X, sl.X) && lenOfPart(sub.Y) {
+							return true
+						}
+					}
+				}
+				return false
+			}
 			return func(v ssa.Value) bool {
+				if sliced(v) {
+					return true
+				}
 				c, ok := v.(*ssa.Call)
 				if !ok || calleeName(&c.Call) != fn || len(c.Call.Args) != 2 {
 					return false
